@@ -106,37 +106,13 @@ def run(facts, rep, tier):
     rep.rule("R12.4", "the sweep call follows every table update in the loop body", "P")
     rep.rule("R12.5", "a new row is built from Plane::new() and the current frame only", "P")
 
-    # ---- anchors: the table updater
-    upd = None
-    for b in facts.bodies.values():
-        if b.kind == "promoted":
-            continue
-        for bb, t in b.calls():
-            c = t["callee"]
-            if c.get("name") == "entry" and "HashMap" in (c.get("path") or "") and "Plane" in " ".join(c.get("generic_args") or []):
-                upd = (b, bb, t)
-    if upd is None:
-        raise Broken("C12 anchor: no HashMap<u32,Plane>::entry call")
-    ub = upd[0]
-    udu = DefUse(ub)
-    am = [(bb, t) for bb, t in ub.calls() if t["callee"].get("name") == "and_modify"]
-    oi = [(bb, t) for bb, t in ub.calls() if t["callee"].get("name") in ("or_insert", "or_insert_with")]
-    if len(am) != 1 or len(oi) != 1:
-        raise Broken("C12 anchor: expected one and_modify and one or_insert in %s" % ub.name)
-    r = udu.root(am[0][1]["args"][1])
-    if not (r[0] == "rv" and r[1]["rv"].get("agg") == "closure"):
-        raise Broken("C12 anchor: and_modify argument is not a closure literal")
-    clos = facts.bodies[r[1]["rv"]["closure"]]
-    cdu = DefUse(clos)
-    entries = []
-    for bb, t in clos.calls():
-        tgt = callee_name(t)
-        if tgt in facts.bodies:
-            for i, a in enumerate(t["args"]):
-                if _rooted_self(cdu, a, 2):
-                    entries.append((tgt, i + 1, t))
+    # ---- anchors: the table updater (any of the styles sq/tableupd.py knows)
+    from ..tableupd import describe
+    T = describe(facts)
+    ub, udu = T["body"], T["du"]
+    entries = [(tgt, selfp, t) for tgt, selfp, t, b_ in T["entries"]]
     if not entries:
-        raise Broken("C12 anchor: the and_modify closure calls no crate function on the row")
+        raise Broken("C12 anchor: the updater calls no crate function on the row it finds")
     st = Stamp(facts)
     n = 0
     for tgt, selfp, t in entries:
@@ -150,9 +126,10 @@ def run(facts, rep, tier):
                             "through this path expires while it is being heard (and its last-contact age does not restart)" % tgt,
                             facts.bodies[tgt].loc()))
     # constructor
-    ctor_root = udu.root(oi[0][1]["args"][1])
-    if ctor_root[0] != "call" or callee_name(ctor_root[1]) not in facts.bodies:
-        raise Broken("C12 anchor: or_insert value is not a call to a crate constructor")
+    if T["ctor"] is None:
+        raise Broken("C12 anchor: the inserted row is not the result of a crate constructor")
+    ctor_root = ("call", T["ctor"][0])
+    udu_ctor = T["ctor"][2]
     ctor = callee_name(ctor_root[1])
     cb = facts.bodies[ctor]
     ctdu = DefUse(cb)
@@ -196,8 +173,8 @@ def run(facts, rep, tier):
                         cb.loc()))
     # constructor arguments: only the current frame/address (params of the updater)
     for a in ctor_root[1]["args"]:
-        e = expr(udu, a)
-        ok = e[0] in ("arg", "const") or (e[0] == "path" and e[1][0] == "arg")
+        e = expr(udu_ctor, a)
+        ok = e[0] in ("arg", "const", "capture") or (e[0] == "path" and e[1][0] in ("arg", "capture"))
         rep.oblige(ok, ("ctor-arg", show(e)))
         if not ok:
             rep.add(Finding("R12.5", "%s : constructor argument %s" % (ub.name, show(e)),
@@ -284,14 +261,48 @@ def run(facts, rep, tier):
         rep.add(Finding("R12.2", "%s : keep-condition is not `num_seconds(now - row.timestamp) < delete_after`" % rc.name,
                         "the sweep keeps/removes rows by a different predicate: %s" % [str(k) for k in keep_terms], rc.loc()))
 
-    # ---- R12.3: counter automaton
-    _cadence(facts, rep, sb, sbb)
-
-    # ---- R12.4
+    # ---- the way from the per-line region to the retain: the sweep may sit in a helper of the function the reader calls
     eff = Effects(facts)
     reg = Region(facts, eff)
+    region_callees = {callee_name(t) for bi, t, e in reg.effect_sites()}
+    chain = [(sb, sbb)]
+    while chain[-1][0].name not in region_callees and len(chain) < 4:
+        cur = chain[-1][0]
+        callers = [(b, bb, t) for b in facts.bodies.values() if b.kind != "promoted" and "::tests::" not in b.name
+                   for bb, t in b.calls() if callee_name(t) == cur.name]
+        if len(callers) != 1:
+            break
+        cb_, cbb_, ct_ = callers[0]
+        # the time and the limit are handed through unchanged
+        cdu_ = DefUse(cb_)
+        for i, a in enumerate(ct_["args"]):
+            pname = cur.locals[i + 1].get("name") if i + 1 <= cur.arg_count else None
+            if pname in ("now", "delete_after"):
+                e = expr(cdu_, a)
+                okp = e[0] == "arg" and not e[2] and cb_.locals[e[1]].get("name") == pname
+                rep.oblige(okp, ("pass-through", cb_.name, pname))
+                if not okp:
+                    rep.add(Finding("R12.2", "%s : %s altered on the way to the sweep" % (cb_.name, pname),
+                                    "%s calls %s with %s = %s, not with its own parameter" % (cb_.name, cur.name, pname, show(e)[:80]),
+                                    span_loc(ct_.get("span"))))
+        chain.append((cb_, cbb_))
+    sweep_top = chain[-1][0]
+
+    # ---- R12.3: counter automaton (in whichever function of that chain holds the counter decision)
+    last = None
+    for cb_, cbb_ in chain:
+        try:
+            _cadence(facts, rep, cb_, cbb_)
+            last = None
+            break
+        except Broken as ex:
+            last = ex
+    if last is not None:
+        raise last
+
+    # ---- R12.4
     up_sites = [(bi, t) for bi, t, e in reg.effect_sites() if callee_name(t) == ub.name]
-    sw_sites = [(bi, t) for bi, t, e in reg.effect_sites() if callee_name(t) == sb.name]
+    sw_sites = [(bi, t) for bi, t, e in reg.effect_sites() if callee_name(t) == sweep_top.name]
     if not up_sites or not sw_sites:
         raise Broken("C12 anchor: table update / sweep not called from the per-line region")
     n = 0
